@@ -190,9 +190,9 @@ theorem representable_1 (data : List Nat) : Spec.representable 1 data = (!data.i
 theorem representable_2 (data : List Nat) : Spec.representable 2 data = (!data.isEmpty && data.all Spec.isAlnum) := rfl
 theorem representable_4 (data : List Nat) : Spec.representable 4 data = true := rfl
 theorem representable_8 (data : List Nat) :
-    Spec.representable 8 data = (!data.isEmpty && Spec.allPairs Spec.isKanjiPair data) := rfl
+    Spec.representable 8 data = Spec.allPairs Spec.isKanjiPair data := rfl
 theorem representable_13 (data : List Nat) :
-    Spec.representable 13 data = (!data.isEmpty && Spec.allPairs Spec.isHanziPair data) := rfl
+    Spec.representable 13 data = Spec.allPairs Spec.isHanziPair data := rfl
 
 theorem findMode_eq_autoMode (data : List Nat) : findMode data = Spec.autoMode data := by
   unfold findMode Spec.autoMode
@@ -210,10 +210,10 @@ theorem autoMode_cases (data : List Nat) :
     (Spec.autoMode data = 8 ∧ Spec.representable 1 data = false ∧ Spec.representable 2 data = false
         ∧ Spec.representable 8 data = true) ∨
     (Spec.autoMode data = 4 ∧ Spec.representable 1 data = false ∧ Spec.representable 2 data = false
-        ∧ Spec.representable 8 data = false) := by
+        ∧ (!data.isEmpty && Spec.representable 8 data) = false) := by
   unfold Spec.autoMode
   cases h1 : Spec.representable 1 data <;> cases h2 : Spec.representable 2 data <;>
-    cases h8 : Spec.representable 8 data <;> simp
+    cases h8 : Spec.representable 8 data <;> cases he : data.isEmpty <;> simp
 
 theorem representable_1_2 (data : List Nat) (h : Spec.representable 1 data = true) :
     Spec.representable 2 data = true := by
@@ -314,8 +314,8 @@ theorem makeSegment_auto (data : List Nat) (enc : String) :
   rcases autoMode_cases data with ⟨h, _⟩ | ⟨h, _⟩ | ⟨h, _, _, h8⟩ | ⟨h, _⟩ <;> rw [h]
   · exact ⟨_, segBody_1 data enc, rfl⟩
   · exact ⟨_, segBody_2 data enc, rfl⟩
-  · rw [representable_8, Bool.and_eq_true] at h8
-    rw [segBody_8, if_pos h8.2]
+  · rw [representable_8] at h8
+    rw [segBody_8, if_pos h8]
     exact ⟨_, rfl, rfl⟩
   · exact ⟨_, segBody_4 data enc, rfl⟩
 
@@ -324,10 +324,8 @@ theorem auto_never_hanzi (data : List Nat) : findMode data ≠ 13 := by
   have := autoMode_le_8 data
   omega
 
-/-- requested mode, under the side condition that rules out the one false case of the original
-    statement (empty data with kanji / hanzi requested) -/
-theorem makeSegment_requested_partial (data : List Nat) (m : Nat) (enc : String) (hm : m ∈ [1, 2, 4, 8, 13])
-    (hne : data ≠ [] ∨ (m ≠ 8 ∧ m ≠ 13)) :
+/-- requested mode: honoured exactly when the content is representable, refused otherwise -/
+theorem makeSegment_requested (data : List Nat) (m : Nat) (enc : String) (hm : m ∈ [1, 2, 4, 8, 13]) :
     (Spec.representable m data = true → ∃ s, makeSegment data (some m) enc = .ok s ∧ s.mode = m)
     ∧ (Spec.representable m data = false → makeSegment data (some m) enc = .error PyErr.valueError) := by
   simp only [List.mem_cons, List.mem_nil_iff, or_false] at hm
@@ -360,31 +358,22 @@ theorem makeSegment_requested_partial (data : List Nat) (m : Nat) (enc : String)
     rw [makeSegment_4]
     exact ⟨fun _ => ⟨_, segBody_4 data enc, rfl⟩, fun h => by cases h⟩
   · -- kanji
-    have hd : data.isEmpty = false := by
-      rcases hne with h | h
-      · cases data with | nil => exact absurd rfl h | cons _ _ => rfl
-      · exact absurd rfl h.1
     rw [makeSegment_some data 8 enc (by decide), if_neg (by have := autoMode_le_8 data; omega), segBody_8,
-      representable_8, hd]
+      representable_8]
     constructor
     · intro h; rw [if_pos (by simpa using h)]; exact ⟨_, rfl, rfl⟩
     · intro h; rw [if_neg (by simpa using h)]
   · -- hanzi
-    have hd : data.isEmpty = false := by
-      rcases hne with h | h
-      · cases data with | nil => exact absurd rfl h | cons _ _ => rfl
-      · exact absurd rfl h.2
     rw [makeSegment_some data 13 enc (by decide), if_neg (by have := autoMode_le_8 data; omega), segBody_13,
-      representable_13, hd]
+      representable_13]
     constructor
     · intro h; rw [if_pos (by simpa using h)]; exact ⟨_, rfl, rfl⟩
     · intro h; rw [if_neg (by simpa using h)]
 
-/-- what really happens in the excluded case: empty content is accepted as an empty kanji / hanzi
-    segment although it is not representable in the sense of the specification -/
+/-- empty content is accepted as an empty kanji / hanzi segment (vacuously representable) -/
 theorem makeSegment_empty_double (enc : String) :
     makeSegment [] (some 8) enc = .ok ⟨[], 0, 8, none⟩ ∧ makeSegment [] (some 13) enc = .ok ⟨[], 0, 13, none⟩
-    ∧ Spec.representable 8 [] = false ∧ Spec.representable 13 [] = false := by
+    ∧ Spec.representable 8 [] = true ∧ Spec.representable 13 [] = true := by
   refine ⟨?_, ?_, rfl, rfl⟩
   · rw [makeSegment_some [] 8 enc (by decide)]; rfl
   · rw [makeSegment_some [] 13 enc (by decide)]; rfl
